@@ -47,3 +47,33 @@ CLAIMS["C12"] = dict(
          "models must agree (get_ode_eqn exact-point, ode/jacobian numerics, multiset of (rate, column) pairs), and each is compared with the driver's assemble.",
     note="Trusted: Lean kernel + Mathlib; harness generator/printer/interpreter. sympy parsing is validated per case. Expression identity decided at 2 random rational points.",
     technique="Lean 4 case analysis of constructors/routes + congruence of assembly + permutation invariance; model/code correspondence")
+CLAIMS["C14"] = dict(
+    text="Proved in Lean (Mathlib real analysis) about per-observation formulas REGENERATED from loss_type.py / distn.py on every run by a Python-AST "
+         "symbolic executor (translate_kernels.py -> lean/Pygom/Gen/Kernels.lean), for all reals in the valid domain (yhat > 0; sigma, shape, k > 0; "
+         "y a natural number for the count losses, y > 0 for Gamma): Square loss = squared weighted residual; Normal / Poisson / Gamma / NegBinom loss = "
+         "-log of gaussianPDFReal(yhat, sigma^2) / poissonMeasure(yhat){y} / gammaPDFReal(shape, shape/yhat) / the negative-binomial mass "
+         "Gamma(k+y)/(Gamma(k) y!) (k/(k+yhat))^k (yhat/(k+yhat))^y; for all five classes diff_loss = HasDerivAt-derivative of the unweighted loss in the "
+         "prediction and diff2Loss = derivative of diff_loss; with weights diff_loss = w x that derivative and the Normal loss is the N(0,sigma^2) "
+         "nll of the weighted residual (as the code has it); apply_weighting=False = unit weight. The array glue (vector, (n,1), (1,n) inputs; default / "
+         "scalar / per-observation spread; weights) is tied per run: real loss/diff_loss/diff2Loss against scipy.stats reference log-densities, 50-digit "
+         "mpmath derivatives of independent closed forms, expected shapes, and the translated formula evaluated numerically (translation validation).",
+    note="Trusted: Lean kernel + Mathlib; the translator (that the emitted Lean term denotes what the Python expression computes elementwise on reals; it refuses "
+         "source outside its subset, which is reported as a broken tie); scipy.stats log-densities as executable references; gammaln(z) read as log Gamma(z) and "
+         "st.poisson.logpmf read as its documented closed form; float vs real arithmetic at relative tolerance 1e-8. diff2Loss of Gamma / NegBinom under "
+         "NON-unit weights mixes weighted and unweighted terms (Lean remark theorem); the property is about the unweighted loss and is checked at unit weight.",
+    technique="Python-AST translator -> generated Lean definitions; Mathlib HasDerivAt / density theorems via canonical closed forms; differential correspondence with scipy / mpmath oracles")
+CLAIMS["C19"] = dict(
+    text="Proved in Lean by `decide` over tables REGENERATED from utilR/distn.py on every run (translate_wrappers.py -> lean/Pygom/Gen/Wrappers.lean): every d/p/q "
+         "function of the nine families (exp, gamma, norm, chisq, unif, beta, pois, binom, nbinom; plain and log; nbinom by prob and by mu, both tails) calls the "
+         "pdf/pmf, cdf (sf), ppf (isf) of the scipy.stats family it is named after with R's parameterisation (scale = 1/rate, loc = min & scale = max-min, a = shape, "
+         "n = size & p = prob, p = size/(size+mu)); every listed family x kind is present; every generator draws from the generator test_seed prescribes "
+         "(None -> global, int/bool -> RandomState(seed), True -> fresh, RandomState -> itself) through the family's numpy method, R-parameterised; for an integer "
+         "seed every documented generator is served by RandomState(seed) only (seeded_generators_reproducible). Over the reals: scale=1/rate forms equal Mathlib's "
+         "exponentialPDFReal / gammaPDFReal / gaussianPDFReal, the translated nb2pmf is the negative-binomial mass and the mean/size form equals the (n,p) form. "
+         "Tied per run: every table row replayed through scipy/numpy against the real function; d/p/q against mpmath closed forms (generalised inverse for discrete "
+         "quantiles, p(q(u)) = u, d = dp/dx); each rX twice with the same integer seed with the serving generator recorded; DKW test of 4000 seeded draws.",
+    note="Trusted: Lean kernel; the translator and its table printer; scipy.stats methods as implementations of the named families and numpy samplers' laws "
+         "(validated per run against closed forms, not proved); numpy RandomState(seed) is a function of the seed. pbeta does not exist in pygom.utilR and rbeta "
+         "ignores its seed (not among the documented seeders): noted, not claimed. Until the proposed fixes are applied the check reports the genuine defects "
+         "pchisq:returns-pdf, dchisq:raises, dbeta:log-ignored, qpois:log-ignored, runif:int-seed-ignored, pnbinom/qnbinom/rnbinom:stub.",
+    technique="Python-AST translator -> generated Lean tables checked by `decide` against a decidable specification; Mathlib density lemmas; differential correspondence with mpmath oracles and recorded generators")
